@@ -134,6 +134,14 @@ def w_basic_inputs(case):
         dialect = case['dialect']
         if case['mode'] == 'short':
             files = [b''] + [bytes([a]) for a in range(256)] + [bytes([a, b]) for a in case['firsts'] for b in range(256)]
+        elif case['mode'] == 'framing':
+            # every single-byte substitution (all 256 values) at every position of a small program, and every prefix of it
+            seed = R.frame(dialect, [(10, b'\xE3I=1\xB8' + b'9'), (0xFE00 + 7, b'\xF1"x\xE3"'), (30, b'\xED:\xE5\x8D\x54\x4A\x40')])
+            files = [seed[:k] for k in range(len(seed) + 1)]
+            for pos in range(case['lo'], min(case['hi'], len(seed))):
+                for v in range(256):
+                    if v != seed[pos]:
+                        files.append(seed[:pos] + bytes([v]) + seed[pos + 1:])
         else:
             t = R.Tables(dialect)
             bodies = []
@@ -171,7 +179,7 @@ def w_basic_inputs(case):
         else:
             bump(res, 'same', len(files))
         res['ntcount'] = len(files)
-        res['nt'].append((dialect, case['mode'], tuple(case['firsts'][:2])))
+        res['nt'].append((dialect, case['mode'], tuple(case.get('firsts', [case.get('lo')])[:2])))
         if res['viol']:
             res['case'] = case
     except Exception:
@@ -263,13 +271,15 @@ def fam_basic_cli(tier):
 
 
 def fam_basic_inputs(tier):
-    """all byte strings of length <=2 as input files and all byte pairs as line bodies, per distinct dialect, in-process on both builds"""
+    """all byte strings of length <=2 as input files, all byte pairs as line bodies, and every single-byte substitution (256 values) at every position plus every prefix of a three-line program (line-number high bytes 0x00..0xFF, lengths, terminators), per distinct dialect, in-process on both builds"""
     for dialect in R.DISTINCT:
         for lo in range(0, 256, 32):
             yield {'w': 'basicin', 'mode': 'short', 'dialect': dialect, 'firsts': list(range(lo, lo + 32))}
         step = 64 if tier == 'quick' else 16
         for lo in range(1, 256, step):
             yield {'w': 'basicin', 'mode': 'pairs', 'dialect': dialect, 'firsts': list(range(lo, min(lo + (8 if tier == 'quick' else 16), 256)))}
+        for lo in range(0, 48, 8):
+            yield {'w': 'basicin', 'mode': 'framing', 'dialect': dialect, 'lo': lo, 'hi': lo + 8}
 
 
 def fam_valgrind(tier):
